@@ -4925,7 +4925,7 @@ bool SoPlexBase<R>::getBasisInverseColReal(int c, R* coef, int* inds, int* ninds
          {
             if(unscale && _solver.isScaled())
             {
-               int scaleExp = -_scaler->getRowScaleExp(index);
+               int scaleExp = _scaler->getRowScaleExp(c);
                DSVectorBase<R> rhs(1);
                rhs.add(index, spxLdexp(1.0, scaleExp));
                _solver.basis().coSolve(x, rhs);
@@ -4974,17 +4974,10 @@ bool SoPlexBase<R>::getBasisInverseColReal(int c, R* coef, int* inds, int* ninds
                assert(idx < numRows());
                assert(!_solver.isRowBasic(idx));
 
-               if(unscale && _solver.isScaled())
-               {
-                  DSVectorBase<R> r_unscaled(numCols());
-                  _solver.getRowVectorUnscaled(idx, r_unscaled);
-                  coef[i] = - (r_unscaled * x);
-               }
-               else
-                  coef[i] = - (_solver.rowVector(idx) * x);
+               coef[i] = - (_solver.rowVector(idx) * x);
 
                if(unscale && _solver.isScaled())
-                  coef[i] = spxLdexp(coef[i], _scaler->getRowScaleExp(idx));
+                  coef[i] = spxLdexp(coef[i], -_scaler->getRowScaleExp(idx));
             }
             else
             {
